@@ -7,3 +7,4 @@ pub mod shapes;
 pub mod twins_c10;
 pub mod twins_c11;
 pub mod twins_c12;
+pub mod twins_dedup;
